@@ -159,13 +159,14 @@ def _nu_arg(nu0, nu1, kind, T):
     return lambda t, a=nu0, b=nu1, T=T: a + t / T * (b - a)
 
 
-def run_native(prog, return_names=False, rescale=1.0, upto=None, swipe_at=None, named=False, orders=None):
+def run_native(prog, return_names=False, rescale=1.0, upto=None, swipe_at=None, named=False, orders=None, gamma=0.0, h=0.5):
     """Execute the program with dadi primitives. rescale=c re-expresses it relative to a reference size c times larger.
     upto=t stops the program t time units (of 2*N0 generations) before its end (the program truncated at that time).
     A frozen (ancient-sample) population is given the size its parent had when it was sampled; that number only enters the
     time-step rule.
     swipe_at=t (only while a single population exists): the history before t time units ago is replaced by equilibrium at the size
     the population had at that time.
+    gamma, h: one selection coefficient and dominance for every population (relative to the unscaled reference size).
     named=True passes deme_ids (the program's own population names) to every primitive that accepts them.
     orders: optional list with one entry per step: a permutation of that step's axes; the integration of that step is carried out
     with the axes in that order (reorder_pops before, and back afterwards). The model is the same; only the order of the directional
@@ -176,7 +177,8 @@ def run_native(prog, return_names=False, rescale=1.0, upto=None, swipe_at=None, 
     xx = Numerics.default_grid(prog['pts'])
     theta = prog['theta'] / c
     ids = (lambda nm: dict(deme_ids=list(nm))) if named else (lambda nm: {})
-    phi = PhiManip.phi_1D(xx, nu=c, theta0=theta, **ids(['p0']))
+    sel = dict(gamma=gamma / c, h=h) if gamma else {}
+    phi = PhiManip.phi_1D(xx, nu=c, theta0=theta, **sel, **ids(['p0']))
     names = ['p0']
     frozen = [False]
     last_nu = [1.0]            # size of each axis at the end of the previous step (unscaled)
@@ -275,7 +277,7 @@ def run_native(prog, return_names=False, rescale=1.0, upto=None, swipe_at=None, 
         sizes = [[last_nu[i], last_nu[i], 'constant'] if frozen[i] else it['sizes'][i] for i in range(k)]
         nus = [_nu_arg(a * c, b * c, kind, Tfull) for a, b, kind in sizes]
         if k == 1:
-            phi = Integration.one_pop(phi, xx, T, nu=nus[0], theta0=theta, frozen=frozen[0], initial_t=t_init * c, **ids(names))
+            phi = Integration.one_pop(phi, xx, T, nu=nus[0], theta0=theta, frozen=frozen[0], initial_t=t_init * c, **sel, **ids(names))
         else:
             perm = list(orders[si]) if orders and orders[si] is not None else list(range(k))
             if perm != list(range(k)):
@@ -289,6 +291,10 @@ def run_native(prog, return_names=False, rescale=1.0, upto=None, swipe_at=None, 
                         kw['m%d%d' % (a_ + 1, b_ + 1)] = it['mig'][i][j] / c
             f = {2: Integration.two_pops, 3: Integration.three_pops, 4: Integration.four_pops, 5: Integration.five_pops}[k]
             kw.update(ids([names[i] for i in perm]))
+            if gamma:
+                for a_ in range(k):
+                    kw['gamma%d' % (a_ + 1)] = gamma / c
+                    kw['h%d' % (a_ + 1)] = h
             phi = f(phi, xx, T, theta0=theta, **kw)
             if perm != list(range(k)):
                 inv = [perm.index(i) for i in range(k)]
